@@ -193,6 +193,8 @@ class ServerSet(object):
     self._on_leave = on_leave or noop
     self._notification_queue = Queue(0)
     self._watching = False
+    self._watched_czxid = None
+    self._watch_generation = 0
     self._cb_blocker = self._CallbackBlocker()
     self._member_filter = member_filter or true
     self._member_factory = member_factory or Member.from_node
@@ -268,13 +270,26 @@ class ServerSet(object):
     if stat is None:
       self._watching = False
       self._send_all_removed()
-    elif not self._watching:
+    elif not self._watching or stat.czxid != self._watched_czxid:
+      if self._watching:
+        # The path was deleted and re-created without us ever seeing it
+        # missing.  The previous children watch may have ended (or still knows
+        # the old children), start over.
+        self._send_all_removed()
       self._watching = True
+      self._watched_czxid = stat.czxid
       self._begin_watch()
 
   def _begin_watch(self):
     self._log.info('Beginning to watch path %s' % self._zk_path)
-    ChildrenWatch(self._zk, self._zk_path, self._on_set_changed)
+    self._watch_generation += 1
+    generation = self._watch_generation
+    def on_set_changed(children):
+      if generation != self._watch_generation:
+        # A newer children watch has replaced this one, stop it.
+        return False
+      self._on_set_changed(children)
+    ChildrenWatch(self._zk, self._zk_path, on_set_changed)
 
   def _send_all_removed(self):
     # Forget the known children (the path may be re-created with the same
